@@ -23,6 +23,12 @@ def main(argv=None):
     except ValueError:
         seed = 1
 
+    # the library logs through the logging module (e.g. an error line per unknown opcode): keep the check's output to its
+    # own report lines
+    import logging
+
+    logging.disable(logging.CRITICAL)
+
     # the code under test comes from $VERIF_REPO's working tree (default /repo)
     repo = os.environ.get("VERIF_REPO", "/repo")
     sys.path.insert(0, repo)
